@@ -264,7 +264,17 @@ def gen_suite(rng, size="small"):
     if len(variants["vm2"]) > 1 and rng.random() < 0.6:
         r3["vm2"] = ("no", [rng.choice(variants["vm2"])])
     nets["net3"] = r3
-    nets["net4"] = {}
+    # net4: sometimes a multi-valued `only` list naming ALL variants of a vm (the worker supports every variant); the list is
+    # written into nets.cfg with unusual but legal blanks around the commas (`list_sep`; the Cartesian parser accepts any).
+    # Drawn from a generator of its own so that the other draws of a seed stay what they were.
+    import random as _random
+    sub = _random.Random(repr(sorted(variants.items())) + "net4")
+    r4 = {}
+    for vm in vms:
+        if len(variants[vm]) > 1 and sub.random() < 0.5:
+            r4[vm] = ("only", list(variants[vm]))
+    nets["net4"] = r4
+    list_sep = sub.choice([", ", ",  ", " , ", ","]) if r4 else ", "
     clusters = {"net5": ["localhost", "cluster1"], "net6": ["localhost", "cluster1"]}
     nets["net5"] = {}
     nets["net6"] = {}
@@ -418,7 +428,8 @@ def gen_suite(rng, size="small"):
     for t in tests:
         t.pop("_from", None)
         t.pop("_vmstate", None)
-    return {"vms": vms, "variants": variants, "nets": nets, "clusters": clusters, "tests": tests, "hints": hints}
+    return {"vms": vms, "variants": variants, "nets": nets, "clusters": clusters, "tests": tests, "hints": hints,
+            "list_sep": list_sep}
 
 
 def _tree(names):
@@ -473,7 +484,7 @@ images_base_dir = ${{vms_base_dir}}
     for i, (n, restr) in enumerate(nets.items()):
         txt += f"    - {n}:\n        nets = \"{n}\"\n        nets_id = {101 + i}\n"
         for vm, (kind, oss) in restr.items():
-            txt += f"        {kind}_{vm} = {', '.join(oss)}\n"
+            txt += f"        {kind}_{vm} = {suite.get('list_sep', ', ').join(oss)}\n"
         txt += f"        suffix _{n}\n"
     clustered = sorted(suite["clusters"])
     txt += "\nvariants:\n    - @localhost:\n        nets_gateway =\n"
